@@ -266,6 +266,15 @@ func evalCase(c *runner.Ctx, fs []fieldSpec, msgMode bool, variant int, tagMode 
 		}
 		_ = valid.Struct(nil, leak)
 		_ = valid.Struct(reflect.Zero(p.Type()).Interface(), leak)
+		// and a completed call on another, group-less type that brought silent functions of its own under every rule
+		// name the main call may use (round 13): they belonged to that call
+		lv := valid.NewVStruct()
+		for _, n := range shadowNames {
+			lv.SetValidFn(n, func(*strings.Builder, string, string, string, reflect.Value) {})
+		}
+		_ = lv.Valid(&struct {
+			A string `valid:"required,to=1~3"`
+		}{A: "abcdef"})
 		if tagMode {
 			err = withSep(func() error { return valid.Struct(p.Interface()) })
 		} else {
@@ -612,6 +621,8 @@ func recursive(c *runner.Ctx) {
 		}
 	}
 }
+
+var shadowNames = []string{"required", "exist", "to", "ge", "le", "oto", "gt", "lt", "eq", "noeq", "in", "include", "phone", "email", "idcard", "year", "year2month", "date", "datetime", "int", "ints", "float", "re", "ip", "ipv4", "ipv6", "unique", "json", "prefix", "suffix", "file", "dir"}
 
 func main() {
 	runner.Main(runner.Config{
